@@ -220,6 +220,32 @@ def _job(args):
                     else:
                         cases.append(scan.model_scan_case(enc, d0[-1], dirs2, files2, (d0[-1],)))
                         metas.append(((d0[-1],), r2[1], r2[2], case2))
+            # the same project scanned from a root_path far above it: a directory directly below "/" (module_path = the project
+            # directory).  Names start with that root directory's name; nothing else changes.
+            parts = list(os.path.normpath(str(base)).split(os.sep))[1:]
+            if whole[0] == "OK" and not xk and rng.random() < 0.3 and not getattr(dirs, "links", None) \
+                    and not any(v.get("link_to") for v in files.values()) and all(pc and "." not in pc for pc in parts):
+                from pytestarch import get_evaluable_architecture
+                for far_root, pre in (("/" + parts[0], parts),):      # ("/" itself has no directory name to start the names with: outside the claim)
+                    try:
+                        fa = rules.cpu_limited(lambda: get_evaluable_architecture(far_root, os.path.join(str(base), root)), 20)
+                        fns, fes = rules.observe(fa, [], [])
+                        far = ("OK", sorted(fns), sorted(set(fes)))
+                    except Exception as e:  # noqa: BLE001
+                        far = ("ERR", type(e).__name__ + ": " + str(e)[:200])
+                    out["n"] += 1
+                    out["stats"]["scanned_from_a_root_far_above"] = out["stats"].get("scanned_from_a_root_far_above", 0) + 1
+                    px = ".".join(pre) + "."
+                    exp_m = sorted({px + m0 for m0 in whole[1]} | {".".join(pre[:i0]) for i0 in range(1, len(pre) + 1)})
+                    exp_e = sorted({(px + a0, px + b0) for a0, b0 in whole[2]})
+                    casef = dict(dirs=[list(d) for d in dirs], files={scan.dotted(f): (scan.render_v(v) if v["py"] else None) for f, v in files.items()},
+                                 module_path=[root], root_path=far_root)
+                    if far[0] != "OK":
+                        out["violations"].append((dict(casef, error=far[1]), f"scan with root_path {far_root!r} far above the project failed: {far[1]}", {"kind": "scan_error"}))
+                    elif far[1] != exp_m or far[2] != exp_e:
+                        out["violations"].append((dict(casef, modules_missing=sorted(set(exp_m) - set(far[1]))[:10], modules_surplus=sorted(set(far[1]) - set(exp_m))[:10],
+                                                       imports_missing=sorted(set(exp_e) - set(far[2]))[:10], imports_surplus=sorted(set(far[2]) - set(exp_e))[:10]),
+                                                  f"the project scanned with root_path {far_root!r}: modules / imports are not those of the scan from the project directory under the longer names", {"kind": "far_root"}))
             res = common.model_run(cases)
             for (mp, mods, edges, case), w, m in zip(metas, cases, res):
                 d = scan.dec_scan(enc, m)
